@@ -6,6 +6,7 @@ import (
 	"go/constant"
 	"go/token"
 	"go/types"
+	"strconv"
 	"strings"
 
 	"golang.org/x/tools/go/packages"
@@ -264,6 +265,18 @@ func (f *frame) evalCond(e ast.Expr) *T {
 		case token.LOR:
 			return mk("or", "", f.evalCond(x.X), f.evalCond(x.Y))
 		case token.EQL, token.NEQ, token.LSS, token.LEQ, token.GTR, token.GEQ:
+			// s == "" / s != "" is a length test
+			if x.Op == token.EQL || x.Op == token.NEQ {
+				for _, pair := range [][2]ast.Expr{{x.X, x.Y}, {x.Y, x.X}} {
+					if tv, ok := f.info.Types[pair[1]]; ok && tv.Value != nil && tv.Value.Kind() == constant.String && constant.StringVal(tv.Value) == "" {
+						ne := mk("nonempty", "", f.eval(pair[0]))
+						if x.Op == token.EQL {
+							return tNot(ne)
+						}
+						return ne
+					}
+				}
+			}
 			a, b := f.eval(x.X), f.eval(x.Y)
 			op := x.Op
 			if va, ok := isConstT(a); ok {
@@ -298,6 +311,17 @@ func (f *frame) evalCond(e ast.Expr) *T {
 					op = token.GEQ
 				case token.GEQ:
 					op = token.LEQ
+				}
+			}
+			// a length is never negative: len(x) < 1 is len(x) == 0, len(x) >= 1 is len(x) != 0
+			if v, ok := isConstT(b); ok && v == 1 {
+				if _, isLen := isLenOf(a); isLen {
+					switch op {
+					case token.LSS:
+						op, b = token.EQL, tConst(0)
+					case token.GEQ:
+						op, b = token.NEQ, tConst(0)
+					}
 				}
 			}
 			if v, ok := isConstT(b); ok && v == 0 {
@@ -388,6 +412,9 @@ func (f *frame) evalCall(call *ast.CallExpr) *T {
 				var bs []*T
 				for _, a := range call.Args[1:] {
 					bs = append(bs, f.eval(a))
+				}
+				if le := leBytes(bs); le != nil {
+					return tSeq(base, mk("raw", "", mk("slice", "", le)))
 				}
 				return tSeq(base, mk("raw", "", mk("bytes", "", bs...)))
 			case "panic":
@@ -677,4 +704,31 @@ func (f *frame) globalTerm(v *types.Var) *T {
 		}
 	}
 	return mk("global", name)
+}
+
+// leBytes recognises byte(v), byte(v>>8), byte(v>>16), ... (2, 4 or 8 operands)
+// as the little-endian bytes of v - the same term binary.LittleEndian.PutUintN
+// into a local array produces.
+func leBytes(bs []*T) *T {
+	if n := len(bs); n != 2 && n != 4 && n != 8 {
+		return nil
+	}
+	var v *T
+	for i, b := range bs {
+		x := b
+		if b.Op == "conv" && (b.K == "byte" || b.K == "uint8") && len(b.A) == 1 {
+			x = b.A[0] // integer conversions are usually elided by eval
+		}
+		if i == 0 {
+			v = x
+			continue
+		}
+		if x.Op != "bin" || x.K != ">>" || len(x.A) != 2 || !eq(x.A[0], v) {
+			return nil
+		}
+		if k, ok := isConstT(x.A[1]); !ok || k != int64(8*i) {
+			return nil
+		}
+	}
+	return mk("le", strconv.Itoa(len(bs)), v)
 }
